@@ -21,7 +21,10 @@ ALSO = {"C15_m1": ["C05", "C01"], "C01_m2": ["C08", "C06"], "C02_m2": ["C01", "C
         "C15_m6": ["C03", "C01"], "C16_m6": ["C08", "C06"], "C18_m6": ["C03", "C01"], "C19_m6": ["C05", "C01"],
         "C01_m7": ["C06"], "C02_m7": ["C11", "C01"], "C03_m7": ["C01"], "C04_m7": ["C01", "C11"], "C05_m7": ["C01", "C15"], "C06_m7": ["C11"],
         "C07_m7": ["C01", "C15"], "C08_m7": ["C01", "C04"], "C09_m7": ["C14", "C06"], "C10_m7": ["C05", "C15"], "C11_m7": ["C02", "C06"],
-        "C15_m7": ["C03"], "C16_m7": ["C11", "C04"], "C18_m7": ["C03", "C01"], "C20_m7": ["C12"]}
+        "C15_m7": ["C03"], "C16_m7": ["C11", "C04"], "C18_m7": ["C03", "C01"], "C20_m7": ["C12"],
+        "C01_m8": ["C11", "C04"], "C02_m8": ["C01", "C15"], "C03_m8": ["C01"], "C04_m8": ["C08", "C01"], "C05_m8": ["C01", "C15"], "C06_m8": ["C01"],
+        "C07_m8": ["C15"], "C08_m8": ["C06"], "C09_m8": ["C11"], "C10_m8": ["C05", "C01"], "C11_m8": ["C01", "C04"], "C15_m8": ["C03", "C18"],
+        "C16_m8": ["C09"], "C17_m8": ["C19"], "C18_m8": ["C04", "C01"], "C19_m8": ["C01"], "C14_m8": ["C04"]}
 
 
 def needs_of(notes: str) -> str:
@@ -61,7 +64,11 @@ def main():
             # the demonstration first: does the mutation still manifest on the current tree?
             subprocess.run(["git", "-C", "/repo", "apply", os.path.join(d, "patch.diff")], check=True)
             try:
-                demo = subprocess.run(["/venv/bin/python", os.path.join(d, "demo.py")], capture_output=True, cwd="/tmp", timeout=600)
+                # (a mutation may introduce non-determinism: its demonstration is given three attempts to fail)
+                for _attempt in range(3):
+                    demo = subprocess.run(["/venv/bin/python", os.path.join(d, "demo.py")], capture_output=True, cwd="/tmp", timeout=600)
+                    if demo.returncode != 0:
+                        break
             finally:
                 subprocess.run(["git", "-C", "/repo", "checkout", "--", "."], check=True)
             meta["ran"].append("git -C /repo apply patch.diff; /venv/bin/python demo.py; git -C /repo checkout -- .")
